@@ -81,7 +81,7 @@ func (f *Formatter) formatStatement(stmt ast.Statement) *Line {
 			trailingNode = t.Alternative
 		case len(t.Another) > 0:
 			// When one of "else if" statement exists, trailing comment will be on it
-			trailingNode = t.Another[len(t.Another)-1]
+			trailingNode = t.Another[len(t.Another)-1].Consequence
 		default:
 			// Otherwise, trailing comment will be on consequence
 			trailingNode = t.Consequence
@@ -267,7 +267,9 @@ func (f *Formatter) formatIfStatement(stmt *ast.IfStatement) string {
 	}
 
 	// else if, elseif, elsif
-	for _, a := range stmt.Another {
+	for i, a := range stmt.Another {
+		// The trailing comment of the last block is printed by formatStatement() as the statement's trailing comment
+		isLastBlock := i == len(stmt.Another)-1 && stmt.Alternative == nil
 		// If leading comments exists or AlwaysNextLineElseIf configuration is enabled,
 		// The keyword should be printed on the next line.
 		if len(a.Leading) > 0 || f.conf.AlwaysNextLineElseIf {
@@ -305,7 +307,7 @@ func (f *Formatter) formatIfStatement(stmt *ast.IfStatement) string {
 			buf.WriteString(v + " ")
 		}
 		buf.WriteString(f.formatBlockStatement(a.Consequence))
-		if v := f.formatComment(a.Consequence.Trailing, "", 0); v != "" {
+		if v := f.formatComment(a.Consequence.Trailing, "", 0); v != "" && !isLastBlock {
 			// If comment is inline , concat to the same line
 			if isInlineComment(a.Consequence.Trailing) {
 				buf.WriteString(" " + v)
